@@ -33,16 +33,33 @@
 (* METAREAD is the code before the repair D61: the callee takes the        *)
 (* evaluator from meta instead of the top of calling[t]; TLC must find an  *)
 (* Isolation counterexample for it.                                        *)
+(*                                                                         *)
+(*  "load"  : reading a workbook file.  ExcelOpxWrapper.load replaces      *)
+(*            openpyxl's from_excel for the time of the read with          *)
+(*            mock.patch, which saves the current function, installs the   *)
+(*            wrapper's and restores the saved one afterwards: `patched`   *)
+(*            is process wide (0 = openpyxl's own function, which turns a  *)
+(*            date formatted cell into a datetime; t = installed by thread *)
+(*            t).  Loads take turns through a module level lock.  The      *)
+(*            constant NOLOCK is the code before the repair D69: TLC must  *)
+(*            find an Isolation counterexample (one thread restores the    *)
+(*            original while the other is still reading) and a violation   *)
+(*            of Unpatched (the function stays patched for ever).          *)
 (***************************************************************************)
 EXTENDS Naturals, Integers, Sequences, FiniteSets, TLC, Json
 
 CONSTANTS Thr,        \* thread ids, e.g. {1, 2}
           Work,       \* [Thr -> record] workload of each thread
           SHARED,     \* BOOLEAN
-          METAREAD    \* BOOLEAN: callees read the shared function metadata (D61)
+          METAREAD,   \* BOOLEAN: callees read the shared function metadata (D61)
+          NOLOCK      \* BOOLEAN: loads do not take turns (the code before D69)
 
-VARIABLES pc, loc, trk, ctx, result, meta, calling
-vars == <<pc, loc, trk, ctx, result, meta, calling>>
+VARIABLES pc, loc, trk, ctx, result, meta, calling,
+          patched,    \* who installed the from_excel in force (0 = openpyxl's own)
+          lock,       \* holder of the load lock (0 = free)
+          saved       \* [Thr -> what mock.patch will restore]
+gl == <<patched, lock, saved>>
+vars == <<pc, loc, trk, ctx, result, meta, calling, patched, lock, saved>>
 
 NS(t) == IF SHARED THEN 0 ELSE t          \* which namespace thread t uses
 Spaces == IF SHARED THEN {0} ELSE Thr
@@ -62,6 +79,7 @@ Init ==
   /\ result = [t \in Thr |-> <<>>]
   /\ meta = 0                              \* nobody has loaded the function yet
   /\ calling = [t \in Thr |-> <<>>]
+  /\ patched = 0 /\ lock = 0 /\ saved = [t \in Thr |-> 0]
 
 \* in_array_formula_context(addr).__enter__ / __exit__ / ctx_address
 Push(k, addr) == [ctx EXCEPT ![k].stack = Append(@, addr)]
@@ -189,7 +207,34 @@ RefStep(t) ==
      /\ result' = [result EXCEPT ![t] = <<loc[t].v2, loc[t].shape>>]
      /\ Goto(t, "end") /\ UNCHANGED <<loc, trk, meta, calling>>
 
-Next == \E t \in Thr : IterStep(t) \/ ArrayStep(t) \/ PlainStep(t) \/ RefStep(t)
+(* ---------------- "load" ---------------- *)
+\* the workbook has Work[t].cells date formatted cells; v2 counts the cells
+\* read so far, v1 those which came back as numbers
+LoadStep(t) ==
+  LET w == Work[t] IN
+  \/ /\ pc[t] = "start" /\ w.kind = "load"          \* with FROM_EXCEL_LOCK
+     /\ NOLOCK \/ lock = 0
+     /\ lock' = IF NOLOCK THEN lock ELSE t
+     /\ Goto(t, "lpatch") /\ UNCHANGED <<loc, trk, ctx, result, meta, calling, patched, saved>>
+  \/ /\ pc[t] = "lpatch"                            \* mock.patch.__enter__
+     /\ saved' = [saved EXCEPT ![t] = patched]
+     /\ patched' = t
+     /\ Goto(t, "lread") /\ UNCHANGED <<loc, trk, ctx, result, meta, calling, lock>>
+  \/ /\ pc[t] = "lread"                             \* openpyxl parses one cell
+     /\ loc' = [loc EXCEPT ![t].v1 = @ + (IF patched # 0 THEN 1 ELSE 0), ![t].v2 = @ + 1]
+     /\ Goto(t, IF loc[t].v2 + 1 >= w.cells THEN "lrestore" ELSE "lread")
+     /\ UNCHANGED <<trk, ctx, result, meta, calling, gl>>
+  \/ /\ pc[t] = "lrestore"                          \* mock.patch.__exit__
+     /\ patched' = saved[t]
+     /\ Goto(t, "lrelease") /\ UNCHANGED <<loc, trk, ctx, result, meta, calling, lock, saved>>
+  \/ /\ pc[t] = "lrelease"
+     /\ lock' = IF NOLOCK THEN lock ELSE 0
+     /\ result' = [result EXCEPT ![t] = <<loc[t].v1>>]
+     /\ Goto(t, "end") /\ UNCHANGED <<loc, trk, ctx, meta, calling, patched, saved>>
+
+Next == \E t \in Thr :
+          \/ (IterStep(t) \/ ArrayStep(t) \/ PlainStep(t) \/ RefStep(t)) /\ UNCHANGED gl
+          \/ LoadStep(t)
 Spec == Init /\ [][Next]_vars
 
 (* ---- what each workload returns when it runs alone ---- *)
@@ -205,12 +250,17 @@ Solo(t) ==
     [] w.kind = "array" -> w.target
     [] w.kind = "plain" -> <<w.x0 + 2, NoCtx>>
     [] w.kind = "ref"   -> <<2 * w.x0 + 1, NoCtx>>
+    [] w.kind = "load"  -> <<w.cells>>
 
 Isolation == \A t \in Thr : pc[t] = "end" => result[t] = Solo(t)
 StackBalanced == (\A t \in Thr : pc[t] = "end") =>
                    \A k \in Spaces : ctx[k].stack = <<NoCtx>>
 CallingBalanced == (\A t \in Thr : pc[t] = "end") => \A t \in Thr : calling[t] = <<>>
 AllEnd == \A t \in Thr : pc[t] = "end"
+\* when nobody is loading, openpyxl's own function is in force and the lock is free
+Unpatched == (\A t \in Thr : pc[t] \in {"start", "end"}) => patched = 0 /\ lock = 0
+\* at most one thread is between patch and restore (what the lock is for)
+OneLoader == ~NOLOCK => Cardinality({t \in Thr : pc[t] \in {"lpatch", "lread", "lrestore", "lrelease"}}) <= 1
 
 \* the solo results, for the harness (printed once, in the initial state)
 ExportSolo == (\A t \in Thr : pc[t] = "start") =>
